@@ -327,4 +327,17 @@ def rule_stdout_branch(rep: Report, repo: Repo, rule: str) -> None:
                 rep.check(ok, rule, f"{MOD}:{q}", norm(c)[:60],
                           "info-level log call reachable in stdout mode: with the default logging configuration the line is "
                           "written to stdout between the pages", witness="cminx x.cmake | head")
+    # the other modules of the pipeline (listener, documenter, entry classes, writer) have no access to the output mode: an info
+    # record there is emitted in stdout mode too
+    from ..model import HAND_WRITTEN
+    for mod in HAND_WRITTEN:
+        if mod == MOD:
+            continue
+        for q, fn in repo.functions(mod):
+            for c in calls_in(fn):
+                nm = call_name(c)
+                if nm.split(".")[-1] == "info" and ("logger" in nm or "logging" in nm or "log" in nm.split(".")[0]):
+                    rep.bad(rule, f"{mod}:{q}", norm(c)[:60],
+                            "info-level log call outside the output-mode aware entry points: with the default logging configuration "
+                            "the line is written to stdout in front of / between the pages", witness="cminx x.cmake > x.rst")
     rep.floor(rule, 5, "stdout/file branch facts")
